@@ -27,7 +27,7 @@ PROPS = {
             "Goat.C01.newConsolidation_needs_quorum",
             "Goat.C01.F1_unchecked_accepts_marks_beyond_voters",
         ],
-        "streams": [{"name": "relayer", "quick": 1500, "thorough": 12000, "seeds": 16}],
+        "streams": [{"name": "relayer", "quick": 1500, "thorough": 12000, "seeds": 16}, {"name": "bitcoin", "quick": 2000, "thorough": 15000, "seeds": 8}],
         "assumptions": [
             "BLS FastAggregateVerify is a parameter of the model (aggVerify); in traces the harness states which keys really signed which document and the driver's oracle answers true exactly for that (keys as a multiset, document equal) - so the model predicts the verdict of the real BLS code",
             "distinctness of the marked voters as *members* needs the group invariant of C16 (voters duplicate-free); positions are distinct by construction",
@@ -46,50 +46,65 @@ PROPS = {
                         "validator store keys are unique and holdings are canonical sdk.Coins (WF; properties of the KV store and of sdk.Coins), slash fractions < 1 (Params.Validate)"],
     },
     "C12": {
-        "module": "GoatProofs.C12",
+        "module": ["GoatProofs.C12", "GoatProofs.C12H"],
         "theorems": ["Goat.C12.shares_sum_le_pool", "Goat.C12.share_at_most_proportional", "Goat.C12.repeated_halving_eq",
                      "Goat.C12.scheduled_eq", "Goat.C12.emission", "Goat.C12.income", "Goat.C12.updateRewardPool_conserves",
-                     "Goat.C12.F5_rounded_shares_exceed_pool"],
+                     "Goat.C12.F5_rounded_shares_exceed_pool",
+                     "Goat.C12H.updateRewardPool_exact", "Goat.C12H.emitted_eq_min", "Goat.C12H.distributeReward_spec", "Goat.C12H.distributeReward_no_votes",
+                     "Goat.C12H.dist_bounds", "Goat.C12H.distributeReward_validator", "Goat.C12H.distributeReward_dust", "Goat.C12H.claimOne_exact", "Goat.C12H.claim_exact",
+                     "Goat.C12H.claim_second_pays_zero", "Goat.C12H.dequeue_spec", "Goat.C12H.processRequests_spec", "Goat.C12H.beginBlock_spec", "Goat.C12H.apply_spec",
+                     "Goat.C12H.history", "Goat.C12H.conservation", "Goat.C12H.conservation_combined", "Goat.C12H.nonnegativity", "Goat.C12H.conservation_from_genesis"],
         "streams": [{"name": "locking-rewards", "quick": 2500, "thorough": 40000, "seeds": 16},
                     {"name": "locking", "quick": 1500, "thorough": 20000, "seeds": 8}],
         "assumptions": ["vote infos carry non-negative powers with a positive total (CometBFT delivers the last commit of a non-empty set)"],
     },
     "C13": {
-        "module": ["GoatProofs.C13", "GoatProofs.C13H"],
+        "module": ["GoatProofs.C13", "GoatProofs.C13H", "GoatProofs.C13B"],
         "theorems": ["Goat.C13.comet_accept_basic", "Goat.C13.toInt64_small", "Goat.C13.F6b_power_2_63_refused",
                      "Goat.C13H.rankOk_of_derived", "Goat.C13H.endBlocker_never_fails", "Goat.C13H.endBlocker_closed_form", "Goat.C13H.top_powers_descending",
                      "Goat.C13H.valset_is_top", "Goat.C13H.valset_size_le_max", "Goat.C13H.valset_members_active", "Goat.C13H.valset_dominates",
                      "Goat.C13H.valset_dominates_strict", "Goat.C13H.records_after", "Goat.C13H.frame_after", "Goat.C13H.rankOk_preserved",
                      "Goat.C13H.accepted_unless_overflow_or_empty", "Goat.C13H.no_removal_of_non_member", "Goat.C13H.no_zero_power_addition",
                      "Goat.C13H.no_duplicate_pubkey", "Goat.C13H.accepted_iff", "Goat.C13H.rejected_if_empty", "Goat.C13H.sync_after_every_block", "Goat.C13H.sync_genesis",
-                     "Goat.ValSet.comet_apply_spec", "Goat.ValSet.rankingDesc_sorted"],
+                     "Goat.ValSet.comet_apply_spec", "Goat.ValSet.rankingDesc_sorted",
+                     "Goat.C13B.rankOk_of_inv", "Goat.C13B.start_after_endBlocker", "Goat.C13B.lockOne_inv", "Goat.C13B.unlockCore_inv", "Goat.C13B.onWeightChanged_inv",
+                     "Goat.C13B.handleVote_inv", "Goat.C13B.handleEvidence_inv", "Goat.C13B.processRequests_inv", "Goat.C13B.beginBlock_inv", "Goat.C13B.blockStep_tr",
+                     "Goat.C13B.between_R", "Goat.C13B.sync_chain", "Goat.C13B.endBlockers_never_fail", "Goat.C13B.start_of_genesis", "Goat.C13B.sync_chain_genesis",
+                     "Goat.C13B.jail_negative_endBlocker_fails"],
         "streams": [{"name": "locking", "quick": 2500, "thorough": 40000, "seeds": 16}],
         "assumptions": ["vote infos and evidence name validators known to the module (they were reported to CometBFT by it)",
-                        "RankOk (ranking = active/pending validators with positive power, recorded set consistent) holds before every EndBlocker: established by genesis import (C18.initGenesis_establishes_Derived + rankOk_of_derived), preserved by EndBlocker (rankOk_preserved); its preservation by the request / begin-block handlers is checked on every state dump by the monitor and by the state comparison, not yet proved (relation parameter `Between` of sync_after_every_block)",
+                        "the genesis state is an import of a well-formed genesis (C13B.start_of_genesis); from there the invariant is proved for every operation of every block (C13B.*_inv, between_R), so no hypothesis on votes, evidence or requests remains",
                         "downtime jail duration >= 0 (Params.Validate demands >= 1 minute)",
                         "the two excluded failure modes are the recorded known findings F6b (total power above CometBFT's maximum) and F10 (set emptied)"],
-        "partial": "preservation of RankOk by lock/unlock/weight/vote/evidence handlers is monitored and differentially compared, not proved",
     },
     "C14": {
-        "module": "GoatProofs.C14",
+        "module": ["GoatProofs.C14", "GoatProofs.C14H"],
         "theorems": ["Goat.C14.non_active_not_counted", "Goat.C14.downtime_exact", "Goat.C14.evidence_tombstones", "Goat.C14.isStale_iff",
-                     "Goat.C14.stale_evidence_ignored", "Goat.C14.tombstoned_not_slashed_again", "Goat.C14.tombstone_absorbing_lock"],
+                     "Goat.C14.stale_evidence_ignored", "Goat.C14.tombstoned_not_slashed_again", "Goat.C14.tombstone_absorbing_lock",
+                     "Goat.C14H.evidence_establishes_tomb", "Goat.C14H.tombstone_permanent", "Goat.C14H.tombstone_leaves_valset", "Goat.C14H.tomb_not_slashed_again",
+                     "Goat.C14H.tombstoned_forever_from_genesis", "Goat.C14H.tombstoned_leaves_valset_from_genesis", "Goat.C14H.downtime_establishes_jailed",
+                     "Goat.C14H.jailed_stays_out", "Goat.C14H.jailed_leaves_valset", "Goat.C14H.rejoin_only_after_jail", "Goat.C14H.lockOne_jailed_exact",
+                     "Goat.C14H.activation_only_by_endBlocker", "Goat.C14H.demotion_only_by_beginBlock", "Goat.C14H.slashed_once_per_offence", "Goat.C14H.reactivation_resets"],
         "streams": [{"name": "locking", "quick": 2500, "thorough": 40000, "seeds": 16}],
         "assumptions": [],
     },
     "C15": {
-        "module": "GoatProofs.C15",
+        "module": ["GoatProofs.C15", "GoatProofs.C15H"],
         "theorems": ["Goat.C15.unlock_amount_bounded", "Goat.C15.unlock_time_exact", "Goat.C15.unlock_time_lower_bound",
                      "Goat.C15.unlock_queued_at_maturity", "Goat.C15.enqueue_files_under_time", "Goat.C15.mature_only",
-                     "Goat.C15.immature_stay", "Goat.C15.mature_leave_queue", "Goat.C15.below_threshold_exits"],
+                     "Goat.C15.immature_stay", "Goat.C15.mature_leave_queue", "Goat.C15.below_threshold_exits",
+                     "Goat.C15H.inv_grun", "Goat.C15H.released_not_before_maturity", "Goat.C15H.released_after_unlock_period", "Goat.C15H.released_exactly_once",
+                     "Goat.C15H.delivered_once", "Goat.C15H.accepted_ids_nodup", "Goat.C15H.released_in_maturity_order", "Goat.C15H.exit_is_immediate",
+                     "Goat.C15H.exited_unlock_exact", "Goat.C15H.exited_unlock_queued", "Goat.C15H.exited_stays_withdrawable"],
         "streams": [{"name": "locking", "quick": 2500, "thorough": 40000, "seeds": 16}],
-        "assumptions": ["block time is non-decreasing (CometBFT)", "ExitingDuration >= UnlockDuration (Params.Validate)"],
+        "assumptions": ["block time is non-decreasing (CometBFT; shown necessary by an example)", "ExitingDuration >= UnlockDuration (Params.Validate)",
+                        "unlock request ids are fresh (locking contract counter on the execution layer; shown necessary by an example: the module does not check ids)"],
     },
     "C03": {
         "module": "GoatProofs.C03",
         "theorems": ["Goat.C03.C03_accept_implies", "Goat.C03.C03_value_exact", "Goat.C03.C03_coinbase_only_at_zero",
                      "Goat.C03.hasDeposited_iff", "Goat.C03.newDeposits_go_spec", "Goat.C03.C03_deposit_once"],
-        "streams": [{"name": "bitcoin", "quick": 2500, "thorough": 30000, "seeds": 16}],
+        "streams": [{"name": "bitcoin", "quick": 2500, "thorough": 30000, "seeds": 16}, {"name": "merkle", "quick": 3000, "thorough": 60000, "seeds": 8}],
         "assumptions": ["double SHA-256 collision resistance enters only as the explicit hypothesis IdealHash of the coinbase corollary",
                         "btcd DeserializeNoWitness is re-implemented in the model (BtcTx.parseNoWitness) and tied differentially",
                         "hash160 / taproot tweak values are stated by the harness (computed with btcd / x/crypto directly, independently of x/bitcoin/types)"],
@@ -180,8 +195,9 @@ PROPS = {
         "module": "GoatProofs.C09",
         "theorems": ["Goat.C09.head_only_by_child", "Goat.C09.nil_payload_rejected", "Goat.C09.finalized_exact", "Goat.C09.uncommitted_block_restores_prestate",
                      "Goat.C09.engine_fault_not_committed", "Goat.C09.committed_needs_engine_ok", "Goat.C09.head_becomes_payload",
-                     "Goat.C09.head_unchanged_on_failure", "Goat.C09.only_ethblock_moves_head"],
-        "streams": [{"name": "app-engine", "quick": 900, "thorough": 6000, "seeds": 12}],
+                     "Goat.C09.head_unchanged_on_failure", "Goat.C09.only_ethblock_moves_head",
+                     "Goat.C09.runTx_keeps_snap", "Goat.C09.txs_keep_snap", "Goat.C09.retry_equals_fault_free"],
+        "streams": [{"name": "app-engine", "quick": 900, "thorough": 6000, "seeds": 12}, {"name": "app-malformed", "quick": 900, "thorough": 5000, "seeds": 8}],
         "assumptions": ["the engine is the scripted fake execution layer of the harness (IPC JSON-RPC server); timeouts are exercised as transport errors",
                         "'nothing persists' is CometBFT's contract that a failed FinalizeBlock is not followed by Commit; the harness emulates it and restarts the application from disk"],
     },
@@ -190,7 +206,8 @@ PROPS = {
         "theorems": ["Goat.C10.relayerTxOnly_ok", "Goat.C10.guardStep_ok", "Goat.C10.guard_exact", "Goat.C10.ethblock_never_in_mempool",
                      "Goat.C10.foreign_never_passes", "Goat.C10.registry_closed", "Goat.FactsThms.registry_known",
                      "Goat.FactsThms.relayer_namespace_is_the_known_ten", "Goat.FactsThms.guard_is_second_decorator"],
-        "streams": [{"name": "app-guard", "quick": 900, "thorough": 6000, "seeds": 12}],
+        "streams": [{"name": "app-guard", "quick": 900, "thorough": 6000, "seeds": 12}, {"name": "app-proposal-shared", "quick": 400, "thorough": 2500, "seeds": 6},
+                    {"name": "app-proposal", "quick": 700, "thorough": 4000, "seeds": 6}],
         "assumptions": ["signature and account-sequence verification are cosmos-sdk's ante decorators (real code in the stream; facts stated to the model)",
                         "the list of registered sdk.Msg implementations is read from the real interface registry of app.New on every run (msgreg) and the ante chain order from the source (factgen)"],
     },
@@ -227,7 +244,7 @@ PROPS = {
             "Goat.C04.C04_accepted_is_leaf",
             "Goat.C04.F2_unchecked_accepts_alias",
         ],
-        "streams": [{"name": "merkle", "quick": 4000, "thorough": 150000, "seeds": 16}],
+        "streams": [{"name": "merkle", "quick": 4000, "thorough": 150000, "seeds": 16}, {"name": "bitcoin", "quick": 2500, "thorough": 20000, "seeds": 8}],
         "assumptions": [
             "position binding (C04_position_binding) assumes collision resistance of double SHA-256 as an explicit hypothesis (IdealHash), never as an axiom",
             "the Go function is compared with the model on generated inputs only (differential), with real double SHA-256 on both sides",
